@@ -1178,6 +1178,8 @@ end
 
 -- Emits `fallthrough` statement.
 function visitors.Fallthrough(context, _, emitter)
+  -- the case block is being left, run its defers before falling into the next case
+  cgenerator.emit_close_scope(context, emitter, context.scope)
   context:ensure_builtin('NELUA_FALLTHROUGH')
   emitter:add_indent_ln('NELUA_FALLTHROUGH(); /* fallthrough */')
 end
